@@ -278,11 +278,11 @@ def specs(tier):
     shapes = [("penta", "unit"), ("hollow", "unit")] if tier == "quick" else [("penta", "unit"), ("hollow", "unit"), ("two", "square"), ("inv:ell", "unit"), ("opring", "tri")]
     for s, o in shapes:
         for h in hists:
-            out.append(dict(module=Mo, scenario="HistLive", params=dict(shape=s, other=o, history=h), time_budget=55 if tier == "quick" else 1200))
+            out.append(dict(module=Mo, scenario="HistLive", params=dict(shape=s, other=o, history=h), time_budget=55 if tier == "quick" else 600))
     qs = [("sub", "bus"), ("sub", "xor"), ("or", "and"), ("in", "or"), ("and", "in"), ("xor", "eq")] + ([("or", "sub"), ("bus", "sub"), ("eq", "and"), ("ni", "xor")] if tier != "quick" else [])
     for A, B in [("square", "unit")] + ([("tri", "unit"), ("hollow2", "unit")] if tier != "quick" else []):
         for q1, q2 in qs:
-            out.append(dict(module=Mo, scenario="Disturb", params=dict(A=A, B=B, q1=q1, q2=q2), time_budget=55 if tier == "quick" else 1200))
+            out.append(dict(module=Mo, scenario="Disturb", params=dict(A=A, B=B, q1=q1, q2=q2), time_budget=55 if tier == "quick" else 600))
     return out
 
 
